@@ -280,13 +280,20 @@ class Builder:
         r = self.r
         if depth < 3 and r.random() < (0.55 if depth == 0 else 0.4):
             names = r.sample(NESTED_NAMES, r.randint(1, 2))
+            if r.random() < (0.4 if self.flavor.get("proto_names") else 0.04):
+                names[0] = "proto"
+                self.features.add("message-named-proto")
             if self.flavor.get("misfire") and depth == 0 and self.used_top and r.random() < 0.7:
                 names[0] = r.choice(sorted(self.used_top - {name}) or names[:1])
             for nm in names:
                 self.add_msg(node, file, nm, depth + 1, top)
                 self.features.add(f"nesting-depth={depth + 2}")
-        if r.random() < 0.3:
-            self.add_enum(node, file, node.fqn, r.choice(ENUM_NAMES), depth + 1)
+        if r.random() < (0.7 if self.flavor.get("proto_names") else 0.3):
+            en = r.choice(ENUM_NAMES)
+            if "proto" not in [n.name for n in node.proto.nested_type] and r.random() < (0.3 if self.flavor.get("proto_names") else 0.04):
+                en = "proto"
+                self.features.add("enum-named-proto")
+            self.add_enum(node, file, node.fqn, en, depth + 1)
             self.features.add("nested-enum")
         return node
 
@@ -298,7 +305,7 @@ class Builder:
                 nm = r.choice([n for n in TOP_NAMES if n not in self.used_top])
                 self.used_top.add(nm)
                 self.add_msg(f, f, nm, 0, nm)
-            for _ in range(r.choice([0, 1, 1, 2])):
+            for _ in range(r.choice([0, 1, 1, 2]) if not self.flavor.get("proto_names") else r.choice([1, 2])):
                 nm = r.choice([n for n in ENUM_NAMES if n not in self.used_top])
                 self.used_top.add(nm)
                 self.add_enum(f, f, None, nm, 0)
@@ -397,15 +404,21 @@ class Builder:
         real, synth = [], []      # (field proto, oneof name)
         taken_json = set()
 
+        # protoc rejects a field named like a nested type of the same message (the upb pool does not notice)
+        scope_names = {n.name for n in pb.nested_type} | {e.name for e in pb.enum_type}
+
         def fresh_name():
             for _ in range(30):
-                if r.random() < 0.16:
+                if r.random() < (0.35 if self.flavor.get("proto_names") else 0.05):
+                    # collides with the module the types file itself imports: %proto.py.j2 then does `import proto as _proto`
+                    nm, tag = "proto", "field-named-proto"
+                elif r.random() < 0.16:
                     nm = r.choice(self.reserved)
                     tag = "reserved-word-field"
                 else:
                     nm, tag = r.choice(FIELD_NAMES), None
                 js = nm.replace("_", "").lower()
-                if nm in names or js in taken_json or nm + "_" in names or (nm.endswith("_") and nm[:-1] in names):
+                if nm in scope_names or nm in names or js in taken_json or nm + "_" in names or (nm.endswith("_") and nm[:-1] in names):
                     continue
                 names.add(nm)
                 taken_json.add(js)
